@@ -41,9 +41,7 @@ func verifGateOp(g *gateImpl, m *verifLatch, op int) {
 		}
 	case 2: // re-arm
 		g.Reset()
-		if !m.canc {
-			m.arr = 0
-		}
+		m.arr = 0 // arrivals are re-armed also for a cancelled gate (which stays cancelled)
 	case 3: // cancel with error
 		g.CancelWithError(verifErrCustom)
 		m.canc, m.err = true, verifErrCustom
